@@ -96,10 +96,26 @@ void h_commit_mask(void) {
 #ifdef HARNESS_h_seg_commit
 /* C07/C13: mi_segment_commit / mi_segment_ensure_committed with an OS that may refuse */
 void h_seg_commit(void) {
-  uint16_t cb = (uint16_t)nd_u32(), pb = (uint16_t)nd_u32(); ASSUME((pb & ~cb) == 0);       /* invariant: purge_mask subset of commit_mask */
+#ifdef CB
+  uint16_t cb = CB, pb = PB;             /* mask shapes enumerated by the driver (keeps the mask loops concrete); OS answers, options, clock symbolic */
+#else
+#ifdef CB
+  uint16_t cb = CB, pb = PB;             /* mask shapes enumerated by the driver (keeps the mask loops concrete); OS answers, options, clock symbolic */
+#else
+#ifdef CB
+  uint16_t cb = CB, pb = PB;             /* mask shapes enumerated by the driver (keeps the mask loops concrete); OS answers, options, clock symbolic */
+#else
+  uint16_t cb = (uint16_t)nd_u32(), pb = (uint16_t)nd_u32(); ASSUME((pb & ~cb) == 0);
+#endif
+#endif
+#endif       /* invariant: purge_mask subset of commit_mask */
   make_segment(cb, pb);
   opt_delay = nd_long(); ASSUME(opt_delay >= 0 && opt_delay <= 1000);
+#ifdef RB0
+  size_t b0 = RB0, nb = RNB;
+#else
   size_t b0 = nd_size(), nb = nd_size(); ASSUME(b0 >= WLO && nb >= 1 && b0 + nb <= WLO + 16);
+#endif
   uint8_t* p = (uint8_t*)&S + b0 * MI_COMMIT_SIZE; size_t size = nb * MI_COMMIT_SIZE;
   mi_commit_mask_t c0 = S.seg.commit_mask, p0 = S.seg.purge_mask, want; mi_commit_mask_create(b0, nb, &want);
   bool ok = nd_bool() ? mi_segment_commit(&S.seg, p, size) : mi_segment_ensure_committed(&S.seg, p, size);
@@ -122,9 +138,25 @@ void h_seg_commit(void) {
 #ifdef HARNESS_h_seg_purge
 /* C13: mi_segment_purge */
 void h_seg_purge(void) {
+#ifdef CB
+  uint16_t cb = CB, pb = PB;             /* mask shapes enumerated by the driver (keeps the mask loops concrete); OS answers, options, clock symbolic */
+#else
+#ifdef CB
+  uint16_t cb = CB, pb = PB;             /* mask shapes enumerated by the driver (keeps the mask loops concrete); OS answers, options, clock symbolic */
+#else
+#ifdef CB
+  uint16_t cb = CB, pb = PB;             /* mask shapes enumerated by the driver (keeps the mask loops concrete); OS answers, options, clock symbolic */
+#else
   uint16_t cb = (uint16_t)nd_u32(), pb = (uint16_t)nd_u32(); ASSUME((pb & ~cb) == 0);
+#endif
+#endif
+#endif
   make_segment(cb, pb);
+#ifdef RB0
+  size_t b0 = RB0, nb = RNB;
+#else
   size_t b0 = nd_size(), nb = nd_size(); ASSUME(b0 >= WLO && nb >= 1 && b0 + nb <= WLO + 16);
+#endif
   mi_commit_mask_t c0 = S.seg.commit_mask, want; mi_commit_mask_create(b0, nb, &want);
   mi_segment_purge(&S.seg, (uint8_t*)&S + b0 * MI_COMMIT_SIZE, nb * MI_COMMIT_SIZE);
   CHECK(mask_subset(&purged, &want), "C13: only blocks inside the given (unused) range are purged");
@@ -139,7 +171,19 @@ void h_seg_purge(void) {
 #ifdef HARNESS_h_try_purge
 /* C18/C13: an expired schedule is carried out completely: every scheduled block is purged, nothing else */
 void h_try_purge(void) {
+#ifdef CB
+  uint16_t cb = CB, pb = PB;             /* mask shapes enumerated by the driver (keeps the mask loops concrete); OS answers, options, clock symbolic */
+#else
+#ifdef CB
+  uint16_t cb = CB, pb = PB;             /* mask shapes enumerated by the driver (keeps the mask loops concrete); OS answers, options, clock symbolic */
+#else
+#ifdef CB
+  uint16_t cb = CB, pb = PB;             /* mask shapes enumerated by the driver (keeps the mask loops concrete); OS answers, options, clock symbolic */
+#else
   uint16_t cb = (uint16_t)nd_u32(), pb = (uint16_t)nd_u32(); ASSUME((pb & ~cb) == 0);
+#endif
+#endif
+#endif
   make_segment(cb, pb);
   opt_delay = nd_long(); ASSUME(opt_delay >= 0 && opt_delay <= 1000);
   now_ms = (nd_u32() & 0xFFFFF) + 1;
